@@ -73,12 +73,13 @@ def gen_stencil(rng, n):
     """2-D grid operators: constant 5-/9-point, variable-coefficient, strongly anisotropic; Dirichlet boundary
        (= positive diagonal shift on boundary vertices)"""
     nx = rng.randint(2, max(2, int(n ** 0.5) + 3)); ny = max(2, n // nx)
-    kind = rng.choice(["const5", "const9", "varcoef", "aniso", "aniso_var"])
+    kind = rng.choice(["const5", "const9", "varcoef", "aniso", "aniso_var", "aniso_weak"])
     eps = Fraction(1, 2 ** rng.randint(5, 14))
+    if kind == "aniso_weak": eps = Fraction(1, 2 ** rng.randint(22, 26))     # couplings ~1e-7 of the strong ones, no boundary condition
     def w(horizontal):
         if kind in ("const5", "const9"): return Fraction(1)
         if kind == "varcoef": return dy(rng, -3, 3)
-        if kind == "aniso": return Fraction(1) if horizontal else eps
+        if kind in ("aniso", "aniso_weak"): return Fraction(1) if horizontal else eps
         return dy(rng, 0, 1) if horizontal else eps * dy(rng, 0, 1)
     N = nx * ny; edges = []; shift = [Fraction(0)] * N
     idx = lambda x, y: y * nx + x
@@ -93,7 +94,8 @@ def gen_stencil(rng, n):
             for (dx, dy_, hor) in [(1, 0, True), (-1, 0, True), (0, 1, False), (0, -1, False)] + \
                                   ([(1, 1, False), (-1, 1, False), (1, -1, False), (-1, -1, False)] if kind == "const9" else []):
                 X, Y = x + dx, y + dy_
-                if not (0 <= X < nx and 0 <= Y < ny): shift[i] += w(hor)
+                if not (0 <= X < nx and 0 <= Y < ny) and kind != "aniso_weak": shift[i] += w(hor)
+    if kind == "aniso_weak": shift = [Fraction(1, 2 ** 33)] * N     # definite only through the weak couplings and a tiny shift
     return laplacian_from_edges(N, edges, shift), kind
 
 def rows_to_csr_tokens(rng, rows, shuffle):
@@ -151,7 +153,8 @@ def make_case(ctx, cid, small):
     r = rng.random()
     x0 = [Fraction(0)] * n if r < 0.55 else ([Fraction(rng.randint(-6, 6)) for _ in range(n)] if r < 0.95 else list(xs))
     b = [sum(a * xs[j] for j, a in row.items()) for row in rows]
-    toks = [cid, "cyc", cls, co, it, rl, theta, str(max_coarse), str(K), "1" if small else "0", "asis"] + \
+    sweeps = rng.choice([1, 1, 1, 2, 3])          # num_smooth_sweeps: every additional Gauss-Seidel sweep is non-expansive too
+    toks = [cid, "cyc", cls, co, it, rl, theta, str(max_coarse), str(K), "1" if small else "0", "asis/%d" % sweeps] + \
         rows_to_csr_tokens(rng, rows, rng.random() < 0.25) + [nums.tok_num(a) for a in x0] + [nums.tok_num(a) for a in b] + \
         ["XS"] + [nums.tok_num(a) for a in xs]
     return dict(cid=cid, line=" ".join(toks), small=small, kind=kind)
@@ -160,7 +163,7 @@ def parse_line(line):
     """case text -> dict (used for generated cases and replays alike)"""
     t = line.split()
     c = dict(cid=t[0], line=line, cls=t[2], coarsen=t[3], interp=t[4], relax=t[5], theta=t[6],
-             max_coarse=int(t[7]), K=int(t[8]), dump=int(t[9]))
+             max_coarse=int(t[7]), K=int(t[8]), dump=int(t[9]), sweeps=(int(t[10].split("/")[1]) if "/" in t[10] else 1))
     assert t[11] == "csr"
     n, nnz = int(t[12]), int(t[14]); p = 15
     ptr = [int(x) for x in t[p:p + n + 1]]; p += n + 1
@@ -175,6 +178,9 @@ def parse_line(line):
     assert t[p] == "XS"
     c["xs"] = [nums.parse_num(x) for x in t[p + 1:p + 1 + n]]
     c["small"] = c["dump"] == 1
+    # definite only through couplings / shifts ~1e-7..1e-10 of the diagonal: condition number ~1e10, the floating-point
+    # iterates legitimately differ from the exact model's beyond the comparison tolerance (energy oracle only)
+    c["near_singular"] = n > 0 and all(sum(r.values()) < Fraction(1, 2 ** 25) * r.get(i, Fraction(1)) for i, r in enumerate(rows))
     return c
 
 def collect(res):
@@ -280,12 +286,12 @@ def model_lines(c, d):
     out = []
     for k in range(1, c["K"] + 1):
         if d["X"].get(k - 1) is None or d["X"].get(k) is None: break
-        toks = ["%s_%d" % (c["cid"], k), "mcyc", "seq" if c["cls"].startswith("seq") else "par", c["relax"], "1", str(L)]
+        toks = ["%s_%d" % (c["cid"], k), "mcyc", "seq" if c["cls"].startswith("seq") else "par", "%s/%d" % (c["relax"], c["sweeps"]), "1", str(L)]
         out.append(" ".join(toks + hier + list(d["X"][k - 1]) + [nums.tok_num(a) for a in c["b"]]))
     return out
 
 def model_cost(c, d):
-    return sum(d["LV"][1:]) ** 2 * d["LV"][0] * (2 if c["relax"] == "SSOR" else 1)
+    return sum(d["LV"][1:]) ** 2 * d["LV"][0] * (2 if c["relax"] == "SSOR" else 1) * c.get("sweeps", 1)
 
 def run_model_budget(ctx, lines, budget):
     """run the extracted model over the case lines; stop at the time budget (exact rational arithmetic on 53-bit
@@ -337,7 +343,7 @@ def check_hypotheses(ctx, c, d):
 def run(ctx):
     ctx.rule = ("SPD M-matrices: weighted Laplacians of random graphs (1..8 components, isolated vertices, weights over "
                 "12 binades) + nonnegative diagonal shift positive in every component; 2-D 5-/9-point, variable-coefficient "
-                "and strongly anisotropic (eps 2^-5..2^-14) stencils with Dirichlet boundary; n = 10..400 (4..12 for the "
+                "and strongly anisotropic (eps 2^-5..2^-14; weakly coupled eps 2^-22..2^-26 with shift 2^-33 and no boundary condition) stencils with Dirichlet boundary; n = 10..400 (4..12 for the "
                 "model comparison); manufactured dyadic solution, b = A x* exact; RugeStuben (5 coarsenings x 3 "
                 "interpolations, theta 0..3/4) and SmoothedAggregation, sequential and Par classes on one process, SOR/SSOR "
                 "weight 1, max_coarse 1..50, 2..6 cycles; non-trivial = >= 2 levels and non-zero initial error; "
@@ -366,7 +372,8 @@ def run(ctx):
             sing = False
             if c["cls"].endswith("_sa"):
                 mn, mx = d["COARSE"]; sing = isinstance(mn, str) or isinstance(mx, str) or mx == 0 or mn <= mx * Fraction(1, 10**12)
-            if not sing:
+            if c["near_singular"]: ctx.count("near_singular_energy_oracle_only")
+            elif not sing:
                 check_hypotheses(ctx, c, d)
                 mjobs.append((model_cost(c, d), c, d))
     ctx.notes.append("t_energy_done %.1fs" % (_t.time() - ctx.t0))
